@@ -13,6 +13,7 @@ use crate::resources::{Allocation, ResourceAmount, ResourceDescriptor, ResourceI
 pub struct SimAllocator {
     allocator: ResourceAllocator,
     map: ResourceIdMap,
+    label_map: ResourceLabelMap,
     live: Vec<Option<Rc<Allocation>>>,
 }
 
@@ -26,6 +27,7 @@ impl SimAllocator {
         SimAllocator {
             allocator: ResourceAllocator::new(desc, &map, &label_map),
             map,
+            label_map,
             live: Vec::new(),
         }
     }
@@ -88,7 +90,11 @@ impl SimAllocator {
                 let idx: Vec<Value> = ra
                     .indices
                     .iter()
-                    .map(|i| json!({"i": i.index.as_num(), "g": i.group_idx, "f": i.fractions}))
+                    .map(|i| {
+                        // "label": the value a task is told for this index (HQ_RESOURCE_VALUES_*, CUDA_VISIBLE_DEVICES, pinning)
+                        json!({"i": i.index.as_num(), "g": i.group_idx, "f": i.fractions,
+                               "label": self.label_map.get_label(ra.resource_id, i.index)})
+                    })
                     .collect();
                 json!({"r": ra.resource_id.as_num(), "amount": u as u64 * 10_000 + f as u64, "idx": idx})
             })
